@@ -1,9 +1,57 @@
 import UvModel.DriverUtil
-/-! line-protocol driver modes for C20 (stub: no modes yet) -/
+import UvModel.ThreadArith
+/-! line-protocol driver for C20 (mode `threads`); the other side is harness/c20_threads.c -/
 namespace Drivers.C20
-open UvModel.DriverUtil
+open UvModel.DriverUtil UvModel.ThreadArith
 
-/-- (mode name, action).  `uvdriver <mode>` runs the action (normally `runLines init step`). -/
-def modes : List (String × IO Unit) := []
+def showOut : Out → String
+  | .ret rc => s!"ret {rc}"
+  | .abort => "abort"
+
+def mustNames : List String :=
+  ["cond_signal", "cond_broadcast", "cond_wait", "cond_destroy", "rwlock_rdlock", "rwlock_wrlock",
+   "rwlock_rdunlock", "rwlock_wrunlock", "rwlock_destroy", "barrier_destroy", "key_delete",
+   "key_set", "sem_post", "sem_destroy", "mutex_destroy"]
+
+def isNat (s : String) : Bool := s.toNat?.isSome
+def isInt (s : String) : Bool := s.toInt?.isSome
+
+/-- mode `threads`:
+  stack <flags> <req> <pagesize> <stackmin> <rlimok> <rlimcur> <createrc>
+        → setstack <n>|none create <0|1> ret <rc>
+  trylock mutex|rd|wr <code>          → ret <rc> | abort
+  semtry <n_eintr> <r> <errno>        → ret <rc> calls <n> | abort calls <n>
+  timedwait <sec> <nsec> <timeout> <rc> → deadline <sec> <nsec> clk 1 condclk 1 ret <rc>|abort
+  barrier <rc>                        → ret <rc> | abort
+  must <wrapper> <rc>                 → ret 0 | abort -/
+def step (_ : Unit) : List String → Unit × List String
+  | ["stack", flags, req, ps, smin, rok, rcur, crc] =>
+    if !(isNat flags && isNat req && isNat ps && isNat smin && isNat rok && isNat rcur && isInt crc) then ((), ["bad-op"]) else
+    let e : Env := { pagesize := nat! ps, stackMin := nat! smin, rlimOk := nat! rok != 0, rlimCur := nat! rcur }
+    let (ss, rc) := createEx e (nat! flags) (nat! req) (int! crc)
+    let reached := match createExStack e (nat! flags) (nat! req) with | .einval => 0 | .create _ => 1
+    let s := match ss with | some n => toString n | none => "none"
+    ((), [s!"setstack {s} create {reached} ret {rc}"])
+  | ["trylock", which, code] =>
+    if !(["mutex", "rd", "wr"].contains which && isInt code) then ((), ["bad-op"]) else
+    ((), [showOut (trylockMap (int! code))])
+  | ["semtry", n, r, e] =>
+    if !(isNat n && isInt r && isInt e) then ((), ["bad-op"]) else
+    match semTrywait (List.replicate (nat! n) (-1, EINTR) ++ [(int! r, int! e)]) with
+    | some (o, calls) => ((), [s!"{showOut o} calls {calls}"])
+    | none => ((), ["bad-op"])   -- (r,e) = (-1,EINTR): the loop would not end
+  | ["timedwait", sec, nsec, tmo, rc] =>
+    if !(isNat sec && isNat nsec && isNat tmo && isInt rc) then ((), ["bad-op"]) else
+    let d := deadline (hrtime (nat! sec) (nat! nsec)) (nat! tmo)
+    ((), [s!"deadline {d.1} {d.2} clk 1 condclk 1 {showOut (timedwaitMap (int! rc))}"])
+  | ["barrier", rc] =>
+    if !isInt rc then ((), ["bad-op"]) else ((), [showOut (barrierWaitMap (int! rc))])
+  | ["must", name, rc] =>
+    if !(mustNames.contains name && isInt rc) then ((), ["bad-op"]) else
+    ((), [showOut (mustZero (int! rc))])
+  | [] => ((), [])
+  | _ => ((), ["bad-op"])
+
+def modes : List (String × IO Unit) := [("threads", runLines () step)]
 
 end Drivers.C20
